@@ -300,3 +300,15 @@ func init() {
 		return strVal(t)
 	})
 }
+
+// reflect.TypeOf(x): identified by the dynamic type tag of x (nil for a nil interface)
+func init() {
+	reg("reflect.TypeOf", func(p *preCall) Val {
+		x := p.args[0]
+		if x.S != "Iface" {
+			p.fc().unsupported("reflect.TypeOf of a non-interface value")
+			return p.fr.freshResult(p.resT, "typeof")
+		}
+		return Val{S: "Iface", T: "(ite (= (i_tag " + x.T + ") 0) (mkI 0 0) (mkI 777777 (i_tag " + x.T + ")))", Typ: p.typ(0)}
+	})
+}
